@@ -536,6 +536,12 @@ def mutate(rng, text):
             toks = [rng.choice(POOL)]
         k = rng.random()
         i = rng.randrange(len(toks))
+        nums = [j for j, t in enumerate(toks) if t[:1].isdigit()]
+        if nums and rng.random() < 0.25:
+            # number-token operators: change case, insert letters / prefixes / dots / underscores, replace by a fuzzed literal
+            j = rng.choice(nums)
+            toks[j] = mutate_number(rng, toks[j])
+            continue
         if k < 0.2:
             del toks[i]
         elif k < 0.3:
@@ -552,6 +558,64 @@ def mutate(rng, text):
         else:
             toks.insert(i, rng.choice(["(", "[", "'", '"', "/*"]))
     return "".join(toks)
+
+
+NUM_PREFIX = ["0x", "0X", "0b", "0B", "0o", "0O", "0'", "0e", "0E", "00x", "0x0X", ""]
+NUM_LETTERS = "xXeEbBoOaAfFgGzZ_'.+-"
+
+
+def num_literal(rng):
+    """a fuzzed numeric-looking literal"""
+    k = rng.random()
+    digs = lambda n: "".join(rng.choice("0123456789") for _ in range(n))  # noqa: E731
+    hexd = lambda n: "".join(rng.choice("0123456789abcdefABCDEF") for _ in range(n))  # noqa: E731
+    if k < 0.3:
+        body = rng.choice([hexd(rng.choice([0, 1, 2, 4])), digs(rng.choice([0, 1, 3])), "g", "yz", "1e5", "E1", "e", "_1", "1_0", "."])
+        return rng.choice(NUM_PREFIX[:9]) + body
+    if k < 0.55:
+        ip = rng.choice(["", "0", "00", "007", digs(rng.choice([1, 2, 5, 19, 25]))])
+        fp = rng.choice(["", "", ".", "..", "." + digs(rng.choice([1, 3])), "." + digs(1) + "." + digs(1), ".e5", "._1"])
+        ex = rng.choice(["", "", "e", "E", "e+", "E-", "e" + digs(1), "E" + digs(2), "e+" + digs(1), "E-" + digs(3), "e--1", "E+-2", "e1e1", "e1.5", "e999", "E-999"])
+        return ip + fp + ex
+    if k < 0.65:
+        return rng.choice(["inf", "Inf", "INF", "nan", "NaN", "NAN", "infinity", "-inf", "+inf", "1inf", "0nan", "1.0Inf", "1.5NaN", "0xinf", "1e", "1E", "1.e5", "1.E5", "0x", "0X", "0xg", "0Xg", "0b", "0b102", "0o8", "0'", "0''", "0'a", "0'ab", "1_000", "1__0", "_1", "1_", "0_x1"])
+    if k < 0.72:
+        return rng.choice(["9", "1", "0"]) * rng.choice([300, 1000, 4300, 4301, 5000, 20000])
+    if k < 0.78:
+        return "0." + "0" * rng.choice([300, 400, 5000]) + "1"
+    if k < 0.84:
+        return rng.choice(["1e", "1E", "0x", "0X"]) + rng.choice(["9", "f", "F"]) * rng.choice([20, 400, 5000])
+    # random soup over the numeric alphabet
+    return "".join(rng.choice("0123456789" * 3 + NUM_LETTERS) for _ in range(rng.choice([2, 3, 4, 6, 9])))
+
+
+def mutate_number(rng, tok):
+    k = rng.random()
+    if k < 0.25:
+        return tok.swapcase() if tok.swapcase() != tok else tok + rng.choice("eExX")
+    if k < 0.55:
+        i = rng.randrange(len(tok) + 1)
+        return tok[:i] + rng.choice(NUM_LETTERS) + tok[i:]
+    if k < 0.7:
+        return rng.choice(NUM_PREFIX[:9]) + tok
+    if k < 0.8:
+        return tok + rng.choice(["e", "E", "e+", "E-1", "x1", "X1F", ".", "..", "_", "'"])
+    return num_literal(rng)
+
+
+NUM_PLACES = ["%s.", "p(%s).", "p(a,%s,b).", "p([%s]).", "p([a|%s]).", "%s::a.", "%s::a; %s::b.", "a :- X = %s.", "q :- Y is %s + 2.",
+              "q :- Y is 2 * %s.", "q :- Y is - %s.", "q :- Y is 2 ** %s.", "q :- %s < 3.", "q :- X =:= %s, p(X).", "p(%s) :- q.",
+              "%s :- a.", "f(%s)::a.", "a :- \\+ %s.", "query(p(%s)).", "p(- %s).", "p(-%s).", "p(+%s).", "p(%s,%s).", "p(%s %s).", "p(%sa).",
+              "p(a%s).", "X%s.", "p(%s", "%s"]
+
+# deterministic grid: every case variant of every base prefix in every placement (always run)
+NUM_GRID = [pre + body for pre in ["0x", "0X", "0b", "0B", "0o", "0O", "0'", "0e", "0E"]
+            for body in ["1F", "E1", "1", "ff", "FF", "g", "", "yz", "1e5", "1E5", "_1", "0", "a"]] + [
+    "1e5", "1E5", "1e+5", "1E-5", "1.5e3", "1.5E3", "1e", "1E", "1e+", "1E-", "1.e5", "1.E5", ".5", ".5e1", ".5E1", "1.", "1..", "1..2", "1.2.3",
+    "007", "00", "0.0", "1_000", "_1", "1_", "inf", "Inf", "INF", "nan", "NaN", "NAN", "1inf", "1nan", "1e999", "1E999", "1e-999",
+    "10X1F", "0Xyz", "0x1G", "0X1G", "1x1", "1X1", "0xe", "0XE", "0xE+1", "0XE+1", "0x1e5", "0X1E5", "0x.", "0X.", "0x1.", "0X1.8",
+    "9" * 4300, "9" * 4301, "9" * 6000, "0x" + "f" * 6000, "0X" + "F" * 40, "1e" + "9" * 400, "0." + "0" * 400 + "1"]
+NUM_GRID_PLACES = ["p(%s).", "%s.", "q :- Y is %s + 2.", "%s::a.", "a :- X = %s."]
 
 
 def soup(rng):
@@ -609,6 +673,17 @@ def run_text(src):
         sys.stdout = old_out
 
 
+def tot_class(r):
+    """class of a totality violation: phase, exception, raising function (+ a discriminator where one python
+    exception type at one site has unrelated causes)"""
+    exc = r[2]
+    if exc == "ValueError" and "Exceeds the limit" in r[4] and "integer string conversion" in r[4]:
+        # CPython >= 3.11 limit of int()/str() conversion (4300 digits): one root cause, raised wherever the literal is
+        # converted (int(token) in the parser, str(Constant) later), so the site is not part of the class
+        return "totality-ValueError-int-max-str-digits"
+    return "totality-%s-%s-in-%s" % (r[1], exc, r[3].replace(":", "."))
+
+
 def shrink_text(src, bad, budget=300):
     toks = TOKEN_RE.findall(src)
     # remove chunks, then single tokens
@@ -648,6 +723,12 @@ def run_totality(ctx):
         texts.append(("mutated-generated", mutate(rng, prog) if rng.random() < 0.8 else prog))
     for _ in range(n_soup):
         texts.append(("soup", soup(rng)))
+    for lit in NUM_GRID:
+        for pl_ in NUM_GRID_PLACES:
+            texts.append(("number-grid", pl_.replace("%s", lit)))
+    for _ in range(ctx.n(3000, 100000)):
+        pl_ = rng.choice(NUM_PLACES)
+        texts.append(("number-fuzz", re.sub("%s", lambda m: num_literal(rng), pl_)))
     ctx.log("totality stream: %d texts" % len(texts))
     results = pl.pmap(run_text, [t for _, t in texts], jobs=12, chunksize=100)
     ctx.log("totality stream evaluated")
@@ -664,17 +745,17 @@ def run_totality(ctx):
             # beyond parsing and ClauseDB construction: other properties' territory, recorded only
             ctx.count("ground_phase_exception_%s_%s" % (r[2], r[3]))
             continue
-        klass = "totality-%s-%s-in-%s" % (r[1], r[2], r[3].replace(":", "."))
+        klass = tot_class(r)
         seen[klass] += 1
         if seen[klass] > 2:
             continue
 
         def bad(c, r=r):
             q = run_text(c)
-            return q[0] == "exc" and q[1:4] == r[1:4]
+            return q[0] == "exc" and tot_class(q) == tot_class(r)
         small = shrink_text(src, bad)
         q = run_text(small)
-        if not (q[0] == "exc" and q[1:4] == r[1:4]):
+        if not (q[0] == "exc" and tot_class(q) == tot_class(r)):
             small, q = src, r
         ctx.violation("PrologString(%r) + iteration/prepare/ground raises %s (%s) in phase %s at %s instead of a ProbLogError"
                       % (small[:300], q[2], q[4], q[1], q[3]),
@@ -735,7 +816,7 @@ def run_fixed(ctx):
         ctx.case(("fixedtext", src), True)
         stats["text_" + r[0]] += 1
         if r[0] == "exc":
-            klass = "totality-%s-%s-in-%s" % (r[1], r[2], r[3].replace(":", "."))
+            klass = tot_class(r)
             ctx.violation("PrologString(%r) raises %s (%s) in phase %s at %s instead of a ProbLogError" % (src, r[2], r[4], r[1], r[3]),
                           {"kind": "totality", "text": src, "exception": r[2], "site": r[3], "phase": r[1], "message": r[4]}, klass=klass)
     ctx.cov["fixed_cases"] = dict(stats)
@@ -748,7 +829,7 @@ def run_replay(ctx):
         ctx.log("replay totality:", r)
         if r[0] == "exc":
             ctx.violation("replayed: PrologString(%r) raises %s at %s" % (rp["text"][:200], r[2], r[3]), rp,
-                          klass="totality-%s-%s-in-%s" % (r[1], r[2], r[3].replace(":", ".")))
+                          klass=tot_class(r))
     elif rp.get("kind") == "roundtrip":
         r = parse_text(rp["source"])
         ctx.log("replay roundtrip: source parses", r[0])
